@@ -295,11 +295,33 @@ func (c *Ctx) checkCase(text string, kind string, extra map[string]any) *CaseInf
 
 // typeEdits: the type-breaking edits of C17's quantifier, applied to the generator's tree.
 func typeEdits(g *Gen, prog *GProgram, r *Rand) string {
-	switch r.Intn(8) {
+	switch r.Intn(9) {
 	case 7:
 		if selfOrigin(prog, r) {
 			return "self-origin"
 		}
+	case 8: // a well-formed call in the wrong context: origin function as a statement, statement function as an origin
+		if r.Chance(1, 2) || len(prog.Vars) == 0 {
+			var call *GFnCall
+			switch r.Intn(3) {
+			case 0:
+				call = &GFnCall{Name: "balance", Args: []*GExpr{acct(r.Pick(accountPool)), {Kind: XAsset, S: "USD"}}}
+			case 1:
+				call = &GFnCall{Name: "meta", Args: []*GExpr{acct(r.Pick(accountPool)), {Kind: XString, S: "k"}}}
+			default:
+				call = &GFnCall{Name: "overdraft", Args: []*GExpr{acct(r.Pick(accountPool)), {Kind: XAsset, S: "USD"}}}
+			}
+			j := r.Intn(len(prog.Stmts) + 1)
+			prog.Stmts = append(prog.Stmts[:j:j], append([]*GStmt{{Kind: StCall, Call: call}}, prog.Stmts[j:]...)...)
+			return "origin-fn-as-statement"
+		}
+		v := prog.Vars[r.Intn(len(prog.Vars))]
+		if r.Chance(1, 2) {
+			v.Origin = &GFnCall{Name: "set_tx_meta", Args: []*GExpr{{Kind: XString, S: "k"}, {Kind: XNumber, N: bi(1)}}}
+		} else {
+			v.Origin = &GFnCall{Name: "set_account_meta", Args: []*GExpr{acct("a"), {Kind: XString, S: "k"}, {Kind: XNumber, N: bi(1)}}}
+		}
+		return "statement-fn-as-origin"
 	case 0:
 		return "none"
 	case 1: // mis-declare a variable
